@@ -22,7 +22,7 @@ def parse_path(rest):
 
 def classify_line(line):
     verb, _, rest = line.rstrip().partition(" ")
-    v = verb.lower()
+    v = verb.lower() or "<empty>"
     ev = {"v": v, "a": NOARG, "x": "", "n": 0}
     if v in PATH_VERBS:
         ev["a"] = parse_path(rest)
@@ -75,7 +75,10 @@ class Sess:
         self.data = None
         self.port = None
         self.replies = []
-        self.pending_lines = []  # [nbytes_remaining, event fields]
+        self.pending_lines = []  # [end offset in the control byte stream, event fields | "garbage"]
+        self.sent_total = 0
+        self.delivered_total = 0
+        self.tail = b""  # bytes of an unterminated line sent so far
         self.last_verb = ""
         self.active = False  # a transfer worker may exist (150 seen, no completion yet)
 
@@ -108,7 +111,18 @@ class CoreDriver:
             asm = ReplyAsm(lambda code, lines: self._reply(s, code, lines))
             c.srv.on_write = asm.feed
             c.cli.on_deliver = lambda chunk: self._ctl_delivered(s, len(chunk))
-            c.srv.on_eof = lambda: net.log("Vanish", s=s)
+            def ctl_eof():
+                # a line cut short by EOF is still handed to the dispatcher by StreamReader.readline()
+                x = self.sess.get(s)
+                if x is not None and x.tail and x.delivered_total >= x.sent_total:
+                    tail, x.tail = x.tail, b""
+                    try:
+                        net.log("Send", s=s, **classify_line(tail.decode("utf-8")))
+                    except UnicodeDecodeError:
+                        net.log("Garbage", s=s)
+                net.log("Vanish", s=s)
+
+            c.srv.on_eof = ctl_eof
         else:
             c.srv.on_write = lambda data: net.log("DataOut", s=s, conn=c.id, data=list(data))
             c.cli.on_deliver = lambda chunk: net.log("DataSend", s=s, conn=c.id, data=list(chunk))
@@ -134,17 +148,41 @@ class CoreDriver:
 
     def _ctl_delivered(self, s, n):
         st = self.sess[s]
-        while n > 0 and st.pending_lines:
-            head = st.pending_lines[0]
-            k = min(n, head[0])
-            head[0] -= k
-            n -= k
-            if head[0] == 0:
-                st.pending_lines.pop(0)
-                if head[1] == "garbage":
-                    self.net.log("Garbage", s=s)
-                elif head[1] is not None:
-                    self.net.log("Send", s=s, **head[1])
+        st.delivered_total += n
+        while st.pending_lines and st.pending_lines[0][0] <= st.delivered_total:
+            head = st.pending_lines.pop(0)
+            if head[1] == "garbage":
+                self.net.log("Garbage", s=s)
+            elif head[1] is not None:
+                self.net.log("Send", s=s, **head[1])
+
+    def _ctl_send(self, x, raw):
+        """Queue raw bytes on the control connection, classifying every line the server will see."""
+        data = x.tail + raw
+        base = x.sent_total - len(x.tail)
+        pos = 0
+        while True:
+            i = data.find(b"\n", pos)
+            if i < 0:
+                break
+            line = data[pos:i + 1]
+            try:
+                text = line.decode("utf-8")
+                ok = len(line) <= 2 ** 16
+            except UnicodeDecodeError:
+                text, ok = None, False
+            if ok:
+                fields = classify_line(text)
+                x.last_verb = fields["v"]
+                x.pending_lines.append([base + i + 1, fields])
+            else:
+                x.pending_lines.append([base + i + 1, "garbage"])
+            pos = i + 1
+        x.tail = data[pos:]
+        x.sent_total += len(raw)
+        if len(x.tail) > 2 ** 16:
+            x.pending_lines.append([x.sent_total, "garbage"])
+        x.ctl.send(raw)
 
     def _fs_gate(self, s, op, segs, kt):
         plan = self.gate_plan.get(s)
@@ -208,33 +246,14 @@ class CoreDriver:
             elif x.active and fields["v"] in ("retr", "stor", "appe", "list", "mlsd"):
                 ok = False
             else:
-                raw = (line + "\r\n").encode("utf-8")
-                x.last_verb = fields["v"]
-                x.pending_lines.append([len(raw), fields])
-                x.ctl.send(raw)
+                self._ctl_send(x, (line + "\r\n").encode("utf-8"))
         elif op == "sendraw":
             s, raw = st[1], bytes(st[2])
             x = self.sess.get(s)
             if x is None or x.ctl.transport.is_closing():
                 ok = False
             else:
-                decodable = True
-                try:
-                    raw.decode("utf-8")
-                except UnicodeDecodeError:
-                    decodable = False
-                body = raw[:-1] if raw.endswith(b"\n") else raw
-                if decodable and len(raw) < 2 ** 16 and raw.endswith(b"\n") and b"\n" not in body:
-                    fields = classify_line(raw.decode("utf-8"))
-                    x.last_verb = fields["v"]
-                    x.pending_lines.append([len(raw), fields])
-                elif raw.endswith(b"\n") or len(raw) >= 2 ** 16:
-                    x.pending_lines.append([min(len(raw), 2 ** 16 + 1) if not decodable or len(raw) < 2 ** 16 else 2 ** 16 + 1, "garbage"])
-                    if len(raw) > x.pending_lines[-1][0]:
-                        x.pending_lines.append([len(raw) - x.pending_lines[-1][0], None])
-                else:
-                    x.pending_lines.append([len(raw), None])  # an unterminated fragment: nothing happens yet
-                x.ctl.send(raw)
+                self._ctl_send(x, raw)
         elif op == "dconnect":
             s = st[1]
             x = self.sess.get(s)
